@@ -135,6 +135,23 @@ let judge op args got =
         let fid = "asis=" ^ (if split_ws (showb (s64_is_multiple_of_const (Zar.abs x) d)) = got then "same" else "diff") in
         expect ~extra:(fid ^ " cls=mc") (showb (is_multiple_of_spec x d)) got
       end
+  | "km" | "mm" ->
+      (* scratch memory: the implementation reports (smallest amount with which the kernel completes, amount reserved).
+         verdict = the reserved amount is enough (an `ok` answer; running out of scratch is a panic);
+         fidelity = both numbers are what Int/DivMemModel.v computes (proved: peak <= reserved for all lengths) *)
+      let (peak, reserved, cls) =
+        if ty = "km" then begin
+          let which = Zar.of_int (int_of_string form) and m = a 2 in
+          let n = Zar.of_int (Wordlevel.nw (a 1)) in
+          (hook_peak which m n, hook_reserved which m n, "cls=mem-k" ^ form)
+        end else (mul_peak_auto (a 2) (a 3), m_mul_reserved (a 2) (a 3), "cls=mem-mul") in
+      (match got, peak with
+       | [ "ok"; mn; rq ], Ok p ->
+           let same = Zar.equal (z mn) p && Zar.equal (z rq) reserved in
+           let nz = if Zar.sign p > 0 then "-used" else "-zero" in
+           if Zar.leq (z mn) (z rq) then pass ~nt:(Zar.sign p > 0) ~extra:("asis=" ^ (if same then "same" else "diff") ^ " " ^ cls ^ nz) ()
+           else fail "ok min<=reserved"
+       | _ -> fail "ok <min> <reserved>")
   | "k" -> Wordlevel.kernel (int_of_string form) (a 0) (a 1) (Zar.to_int (a 2)) got
   | _ -> fail ("unknown-op-" ^ op)
 
